@@ -70,3 +70,19 @@ PROPS['C14'] = dict(
                'the step semantics are compared with the Go code on sequential histories and the property itself is checked on real concurrent runs.',
     level_note='Atomicity of each operation is assumed (mutex / atomic.Add as coded); UUID uniqueness is a premise. Hooks (build tag verif) expose identifier internals to the harness.',
 )
+
+PROPS['C19'] = dict(
+    families=[dict(name='c19-store', quick=2500, thorough=120000)],
+    slice=40,
+    rule='random histories (2-61 ops) of AddQuad/DeleteQuad/HasQuad/NewQuadIterator and GetGraph(..).AddTriple/DeleteTriple/HasTriple/NewTripleIterator over a universe of 4 IRIs, '
+         '4 blank nodes of two factories (equal counters in different factories), 10 literals differing only in datatype / tag / direction / lexical form incl. forms mimicking the literal key syntax, '
+         '6 graph names; matcher combinations from Equals / EqualsOneOf / IsIRI / IsBlankNode / IsLiteral / IsLiteralDatatype / And / Or / Not at every position '
+         '(single-subject-matcher fast path made frequent); non-trivial = >=3 mutations and >=1 query',
+    trusted_base=['model/Store.v mirrors x/storage/inmemory (graph map -> subject-node buckets -> statement lists) and rdf/terms, rdf/triples, rdf/quads matchers; node interning is modelled by structural term equality',
+                  'collision-freeness of the 96-bit truncated SHA-256 literal key is assumed; injectivity of its preimage on well-formed literals is proved (C19_lit_key_injective*)'],
+    assumptions=['terms are well-formed (datatype IRIs without LF, tag <=> rdf:langString / rdf:dirLangString): ill-formed literals can collide in nodesByLiteral'],
+    explanation='refinement of the store model to a plain set over all histories and matcher lists; the model is run against inmemory.Dataset on generated histories, and the harness checks the set semantics on the implementation directly',
+    level_text='Proof: refinement of the store to a mathematical set over all histories (membership, no duplicates, deletions of absent quads no-ops), iteration = filter for every matcher list (fast path = slow path), '
+               'matchers = term equality, literal-key preimage injective; the model is compared with inmemory.Dataset step by step on generated histories.',
+    level_note='Node interning is modelled by term equality; truncated-SHA-256 collision-freeness is assumed. Go map iteration order is abstracted (outputs compared as sorted lists).',
+)
